@@ -127,14 +127,53 @@ type SpecOpts struct {
 	Prog       ProgOpts
 	GuardMulti bool // allow guarded branches whose pattern may yield several candidates
 	MsgOnly    bool
+	Inspect    bool // bindings-branch patterns that look inside values stored by actions
 }
 
 var nodeNames = []string{"start", "n1", "n2", "n3", "n4", "error", "aerr"}
 
 // branch patterns over messages / bindings
-func branchPattern(r *rand.Rand, forMessage bool) (interface{}, bool) {
+func branchPattern(r *rand.Rand, forMessage bool, inspect bool) (interface{}, bool) {
 	if r.Intn(6) == 0 {
 		return nil, false
+	}
+	if inspect && !forMessage && r.Intn(2) == 0 {
+		switch r.Intn(12) {
+		case 0:
+			return map[string]interface{}{"a": []interface{}{1.0}}, true
+		case 1:
+			return map[string]interface{}{"a": []interface{}{1.0, "a"}}, true
+		case 2:
+			return map[string]interface{}{"b": map[string]interface{}{"k": float64(r.Intn(3))}}, true
+		case 3:
+			return map[string]interface{}{"log": []interface{}{float64(r.Intn(3))}}, true
+		case 4:
+			return map[string]interface{}{"a": "?x", "b": "?x"}, true
+		case 5:
+			return map[string]interface{}{"lastBindings": map[string]interface{}{"n": "?q"}}, true
+		case 6:
+			return map[string]interface{}{"lastBindings": map[string]interface{}{"a": []interface{}{1.0}}, "lastNode": "?ln"}, true
+		case 7:
+			return map[string]interface{}{"n": "?<lim"}, true
+		case 8:
+			return map[string]interface{}{"a": 1.5}, true
+		case 9:
+			return map[string]interface{}{"a": nil}, true
+		case 10:
+			return map[string]interface{}{"a": []interface{}{"?e"}, "n": "?e"}, true
+		default:
+			return map[string]interface{}{"b": map[string]interface{}{"k": "?kk"}, "n": "?kk"}, true
+		}
+	}
+	if inspect && forMessage && r.Intn(3) == 0 {
+		switch r.Intn(3) {
+		case 0:
+			return map[string]interface{}{"k": "?<lim"}, true
+		case 1:
+			return map[string]interface{}{"k": "?n0"}, true
+		default:
+			return map[string]interface{}{"l": []interface{}{"?e"}, "k": "?>=lim"}, true
+		}
 	}
 	if forMessage {
 		switch r.Intn(8) {
@@ -225,7 +264,7 @@ func GenSpec(r *rand.Rand, o SpecOpts, u *Uid) *ref.ASpec {
 		if n.Branching != nil {
 			nb := r.Intn(4)
 			for i := 0; i < nb; i++ {
-				pat, has := branchPattern(r, n.Branching.Type == "message")
+				pat, has := branchPattern(r, n.Branching.Type == "message", o.Inspect)
 				b := &ref.ABranch{HasPattern: has, Pattern: pat}
 				switch r.Intn(10) {
 				case 0:
@@ -247,6 +286,9 @@ func GenSpec(r *rand.Rand, o SpecOpts, u *Uid) *ref.ASpec {
 								b.Guard = nil
 							}
 							if _, arr := m["log"]; arr {
+								b.Guard = nil
+							}
+							if _, arr := m["a"].([]interface{}); arr {
 								b.Guard = nil
 							}
 						}
